@@ -162,3 +162,136 @@ Proof.
   intro H. destruct (csimple_denote_shortest b x H) as [Hx L].
   rewrite csimple_length_eq, chained_len_is_spec by exact Hx. lia.
 Qed.
+
+(* ---- uniqueness: the only denoting string of minimal length is the encoder's ---- *)
+Lemma be128_horner l : forallb cont_byte l = true -> be128 (length l) (horner128 0 l) = l.
+Proof.
+  unfold horner128. induction l as [|c l IH] using rev_ind; intro H; [reflexivity|].
+  rewrite forallb_app in H. apply andb_true_iff in H. destruct H as [Hl Hc].
+  cbn [forallb] in Hc. rewrite andb_true_r in Hc. unfold cont_byte in Hc.
+  rewrite app_length, fold_left_app. cbn [length fold_left].
+  replace (length l + 1)%nat with (S (length l)) by lia. cbn [be128].
+  set (h := fold_left _ l 0) in *.
+  replace ((h * 128 + (c - 128)) / 128) with h by lia.
+  replace (128 + (h * 128 + (c - 128)) mod 128) with c by lia.
+  rewrite (IH Hl). reflexivity.
+Qed.
+
+Lemma le128_lsum l : forallb cont_byte l = true -> le128 (length l) (lsum128 l) = l.
+Proof.
+  unfold lsum128. induction l as [|c l IH]; intro H; [reflexivity|].
+  cbn [forallb] in H. apply andb_true_iff in H. destruct H as [Hc Hl].
+  unfold cont_byte in Hc. cbn [length fold_right le128].
+  set (s := fold_right _ 0 l) in *.
+  replace ((c - 128 + 128 * s) / 128) with s by lia.
+  replace (128 + (c - 128 + 128 * s) mod 128) with c by lia.
+  rewrite (IH Hl). reflexivity.
+Qed.
+
+Theorem chained_canonical b x : chained_denote b = Some x ->
+  length b = chained_spec_len x -> b = chained_spec x.
+Proof.
+  unfold chained_denote. intros H HL.
+  destruct (rev b) as [|last fr] eqn:R; [discriminate|].
+  assert (Eb : b = rev fr ++ [last]).
+  { rewrite <- (rev_involutive b), R. reflexivity. }
+  assert (Lb : length b = S (length (rev fr))).
+  { rewrite Eb, app_length. cbn [length]. lia. }
+  cbv zeta in H. set (front := rev fr) in *.
+  destruct (forallb cont_byte front) eqn:C; [|discriminate].
+  fold (horner128 0 front) in H.
+  pose proof (horner_bound front 0 C) as HB.
+  pose proof (be128_horner front C) as BH.
+  set (h := horner128 0 front) in *.
+  destruct (Nat.eqb_spec (length front) 8) as [E|E].
+  - destruct (last <? 256) eqn:F; [|discriminate]. injection H as <-.
+    rewrite E in *. norm_pow128.
+    unfold chained_spec, chained_spec_len in *.
+    destruct (h * 256 + last <? 72057594037927936) eqn:T.
+    + destruct (top_lt_spec_len (h * 256 + last) ltac:(lia)) as (A & _). lia.
+    + replace ((h * 256 + last) / 256) with h by lia.
+      replace ((h * 256 + last) mod 256) with last by lia.
+      rewrite BH. exact Eb.
+  - destruct (Nat.ltb_spec (length front) 8) as [L|L]; [|discriminate].
+    destruct (last <? 128) eqn:F; [|discriminate]. cbn [andb] in H. injection H as <-.
+    pose proof (pow128_mono (S (length front)) 8 ltac:(lia)) as M.
+    rewrite pow128_S in M. norm_pow128.
+    unfold chained_spec. unfold chained_spec_len in HL.
+    destruct (h * 128 + last <? 72057594037927936) eqn:T; [|lia].
+    fold (chained_spec_len (h * 128 + last)). unfold chained_spec_len. rewrite T.
+    rewrite <- HL, Lb. replace (S (length front) - 1)%nat with (length front) by lia.
+    replace ((h * 128 + last) / 128) with h by lia.
+    replace ((h * 128 + last) mod 128) with last by lia.
+    rewrite BH. exact Eb.
+Qed.
+
+Theorem csimple_canonical b x : csimple_denote b = Some x ->
+  length b = chained_spec_len x -> b = csimple_spec x.
+Proof.
+  unfold csimple_denote. intros H HL.
+  destruct (rev b) as [|last fr] eqn:R; [discriminate|].
+  assert (Eb : b = rev fr ++ [last]).
+  { rewrite <- (rev_involutive b), R. reflexivity. }
+  assert (Lb : length b = S (length (rev fr))).
+  { rewrite Eb, app_length. cbn [length]. lia. }
+  cbv zeta in H. set (front := rev fr) in *.
+  destruct (forallb cont_byte front) eqn:C; [|discriminate].
+  fold (lsum128 front) in H.
+  pose proof (lsum_bound front C) as HB.
+  pose proof (le128_lsum front C) as BH.
+  set (s := lsum128 front) in *.
+  destruct (Nat.eqb_spec (length front) 8) as [E|E].
+  - destruct (last <? 256) eqn:F; [|discriminate].
+    rewrite (N.mul_comm 72057594037927936 last) in H. injection H as <-.
+    rewrite E in *. norm_pow128.
+    unfold csimple_spec, chained_spec_len in *.
+    destruct (s + last * 72057594037927936 <? 72057594037927936) eqn:T.
+    + destruct (top_lt_spec_len (s + last * 72057594037927936) ltac:(lia)) as (A & _). lia.
+    + replace ((s + last * 72057594037927936) / 72057594037927936) with last by lia.
+      rewrite <- BH in Eb.
+      assert (Q : le128 8 (s + last * 72057594037927936) = le128 8 s).
+      { rewrite <- (le128_lsum (le128 8 (s + last * 72057594037927936)))
+          by apply cont_le128.
+        rewrite length_le128, lsum_le128. norm_pow128.
+        replace ((s + last * 72057594037927936) mod 72057594037927936) with s by lia.
+        reflexivity. }
+      rewrite Q. exact Eb.
+  - destruct (Nat.ltb_spec (length front) 8) as [L|L]; [|discriminate].
+    destruct (last <? 128) eqn:F; [|discriminate]. cbn [andb] in H. injection H as <-.
+    pose proof (pow128_mono (S (length front)) 8 ltac:(lia)) as M.
+    rewrite pow128_S in M. norm_pow128.
+    pose proof (pow128_pos (length front)) as PP.
+    set (P := 128 ^ N.of_nat (length front)) in *.
+    assert (XB : s + P * last < 72057594037927936).
+    { clearbody P s. assert (P * last <= P * 127) by (apply N.mul_le_mono_l; lia). lia. }
+    unfold csimple_spec. unfold chained_spec_len in HL.
+    destruct (s + P * last <? 72057594037927936) eqn:T; [|lia].
+    fold (chained_spec_len (s + P * last)). unfold chained_spec_len. rewrite T.
+    rewrite <- HL, Lb. replace (S (length front) - 1)%nat with (length front) by lia.
+    fold P.
+    assert (D : (s + P * last) / P = last).
+    { symmetry. apply N.div_unique with s; [exact HB | lia]. }
+    assert (Mo : (s + P * last) mod P = s).
+    { symmetry. apply N.mod_unique with last; [exact HB | lia]. }
+    rewrite D.
+    assert (Q : le128 (length front) (s + P * last) = le128 (length front) s).
+    { rewrite <- (le128_lsum (le128 (length front) (s + P * last))) by apply cont_le128.
+      rewrite length_le128, lsum_le128. fold P. rewrite Mo. reflexivity. }
+    rewrite Q, BH. exact Eb.
+Qed.
+
+Theorem chained_unique b x : chained_denote b = Some x ->
+  N.of_nat (length b) = chained_len x -> b = chained_put x.
+Proof.
+  intros H HL. destruct (chained_denote_shortest b x H) as [Hx _].
+  rewrite chained_put_is_spec by exact Hx. apply chained_canonical; [exact H|].
+  rewrite chained_len_is_spec in HL by exact Hx. lia.
+Qed.
+
+Theorem csimple_unique b x : csimple_denote b = Some x ->
+  N.of_nat (length b) = csimple_length x -> b = csimple_encode64 x.
+Proof.
+  intros H HL. destruct (csimple_denote_shortest b x H) as [Hx _].
+  rewrite csimple_put_is_spec by exact Hx. apply csimple_canonical; [exact H|].
+  rewrite csimple_length_eq, chained_len_is_spec in HL by exact Hx. lia.
+Qed.
